@@ -145,6 +145,14 @@ static void fd_check(Ctx &ctx, const std::string &text, int D, bool accept)
 		ctx.fail("fd-rejected", "json_object_from_fd_ex(depth=" + str(D) + ") rejected a document within the limit: " + quote(text, 200));
 	if (!accept && got)
 		ctx.fail("fd-accepted", "json_object_from_fd_ex(depth=" + str(D) + ") accepted a document beyond the limit: " + quote(text, 200));
+	if (!accept)
+	{
+		// the failure must be the nesting-too-deep error; through this entry point it is visible in the retrievable message
+		const char *m = json_util_get_last_err();
+		if (!m || !strstr(m, json_tokener_error_desc(json_tokener_error_depth)))
+			ctx.fail("fd-wrong-error", "json_object_from_fd_ex(depth=" + str(D) + ") refused a too-deep document of " + str(text.size()) +
+			                               " bytes but not with the nesting-too-deep error: " + std::string(m ? m : "(no message)"));
+	}
 }
 } // namespace
 
@@ -266,6 +274,29 @@ void run_case(Choices &c, Ctx &ctx)
 	{
 		fd_check(ctx, text, D, ref.max_depth <= D - 1);
 		ctx.label("from_fd_ex");
+	}
+	if (c.coin(8) && ref.v.k != Val::Null && !ref.toks.empty())
+	{
+		// the same document inflated with insignificant whitespace at 1..3 token boundaries so that it spans several
+		// read blocks of json_object_from_fd_ex and the deep spot may lie in any of them
+		std::string big = text;
+		for (size_t i = 0, n = 1 + c.pickn(3); i < n; i++)
+		{
+			const RefTok &t = ref.toks[c.pickn(ref.toks.size())];
+			size_t pad = (size_t)c.range(3000, 9000);
+			// positions shift as we insert: insert from a fresh lexing each time
+			RefResult r2 = ref_parse(big, true, true);
+			if (!r2.ok || r2.toks.empty())
+				break;
+			const RefTok &t2 = r2.toks[c.pickn(r2.toks.size())];
+			(void)t;
+			big.insert(t2.start, std::string(pad, c.coin(50) ? ' ' : '\n'));
+		}
+		fd_check(ctx, big, D, ref.max_depth <= D - 1);
+		POut m = parse_fresh(big, 0, D, true);
+		if ((m.err == json_tokener_success) != (ref.max_depth <= D - 1))
+			ctx.fail("inflated", "whitespace-inflated document judged differently: " + m.show_());
+		ctx.label("from_fd_ex_multi_block");
 	}
 	if (rel >= -1 && rel <= 1)
 		ctx.nontrivial(hash_str(text, hash_u64(D)));
